@@ -211,6 +211,7 @@ class Sched:
         self.clock_jumps = 0
         self.on_stable = None
         self.wall_cap = 120.0
+        self.preempt_stacks = []
         self.ready = _real_threading.Semaphore(0)
 
     # ---- construction ----
@@ -292,6 +293,13 @@ class Sched:
             cands = self._runnable(exclude=me)
             if cands:
                 nxt = self._choose(cands, "preempt")
+                # where the pre-empted thread was: names of the frames under test on its stack
+                names = []
+                f = sys._getframe(1)
+                while f is not None and len(names) < 24:
+                    names.append(f.f_code.co_name)
+                    f = f.f_back
+                self.preempt_stacks.append(tuple(names))
                 self._handoff(me, nxt, "preempt")
                 self._park(me)
 
